@@ -5,6 +5,282 @@
 -/
 namespace Sidetree.ExpectedSkeletons
 
+/-- pkg/versions/1_0/client/create.go:NewCreateRequest -/
+def skel_create_NewCreateRequest : List String :=
+  ["if err := validateCreateRequest(info); err != nil {", "  return nil, err", "}", "patches, err := getPatches(info.OpaqueDocument, info.Patches)", "if err != nil {", "  return nil, err", "}", "delta := &model.DeltaModel{...}", "deltaHash, err := hashing.CalculateModelMultihash(delta, info.MultihashCode)", "if err != nil {", "  return nil, err", "}", "suffixData := &model.SuffixDataModel{...}", "schema := &model.CreateRequest{...}", "return canonicalizer.MarshalCanonical(schema)"]
+
+/-- pkg/versions/1_0/client/create.go:getPatches -/
+def skel_create_getPatches : List String :=
+  ["if opaque != \"\" {", "  return patch.PatchesFromDocument(opaque)", "}", "return patches, nil"]
+
+/-- pkg/versions/1_0/client/create.go:validateCreateRequest -/
+def skel_create_validateCreateRequest : List String :=
+  ["if info.OpaqueDocument == \"\" && len(info.Patches) == 0 {", "  return error(...)", "}", "if info.OpaqueDocument != \"\" && len(info.Patches) > 0 {", "  return error(...)", "}", "supported := multihash.ValidCode(uint64(info.MultihashCode))", "if !supported {", "  return error(...)", "}", "if !hashing.IsComputedUsingMultihashAlgorithms(info.RecoveryCommitment, []uint{info.MultihashCode}) {", "  return error(...)", "}", "if !hashing.IsComputedUsingMultihashAlgorithms(info.UpdateCommitment, []uint{info.MultihashCode}) {", "  return error(...)", "}", "if info.RecoveryCommitment == info.UpdateCommitment {", "  return error(...)", "}", "return nil"]
+
+/-- pkg/versions/1_0/client/update.go:NewUpdateRequest -/
+def skel_update_NewUpdateRequest : List String :=
+  ["if err := validateUpdateRequest(info); err != nil {", "  return nil, err", "}", "delta := &model.DeltaModel{...}", "deltaHash, err := hashing.CalculateModelMultihash(delta, info.MultihashCode)", "if err != nil {", "  return nil, err", "}", "signedDataModel := &model.UpdateSignedDataModel{...}", "err = validateCommitment(info.UpdateKey, info.MultihashCode, info.UpdateCommitment)", "if err != nil {", "  return nil, err", "}", "signModel, err := signutil.SignModel(signedDataModel, info.Signer)", "if err != nil {", "  return nil, err", "}", "schema := &model.UpdateRequest{...}", "return canonicalizer.MarshalCanonical(schema)"]
+
+/-- pkg/versions/1_0/client/update.go:validateUpdateRequest -/
+def skel_update_validateUpdateRequest : List String :=
+  ["if info.DidSuffix == \"\" {", "  return error(...)", "}", "if info.RevealValue == \"\" {", "  return error(...)", "}", "if len(info.Patches) == 0 {", "  return error(...)", "}", "if err := validateUpdateKey(info.UpdateKey); err != nil {", "  return err", "}", "return validateSigner(info.Signer)"]
+
+/-- pkg/versions/1_0/client/update.go:validateUpdateKey -/
+def skel_update_validateUpdateKey : List String :=
+  ["if key == nil {", "  return error(...)", "}", "return key.Validate()"]
+
+/-- pkg/versions/1_0/client/recover.go:NewRecoverRequest -/
+def skel_recover_NewRecoverRequest : List String :=
+  ["err := validateRecoverRequest(info)", "if err != nil {", "  return nil, err", "}", "patches, err := getPatches(info.OpaqueDocument, info.Patches)", "if err != nil {", "  return nil, err", "}", "delta := &model.DeltaModel{...}", "deltaHash, err := hashing.CalculateModelMultihash(delta, info.MultihashCode)", "if err != nil {", "  return nil, err", "}", "signedDataModel := model.RecoverSignedDataModel{...}", "err = validateCommitment(info.RecoveryKey, info.MultihashCode, info.RecoveryCommitment)", "if err != nil {", "  return nil, err", "}", "signModel, err := signutil.SignModel(signedDataModel, info.Signer)", "if err != nil {", "  return nil, err", "}", "schema := &model.RecoverRequest{...}", "return canonicalizer.MarshalCanonical(schema)"]
+
+/-- pkg/versions/1_0/client/recover.go:validateRecoverRequest -/
+def skel_recover_validateRecoverRequest : List String :=
+  ["if info.DidSuffix == \"\" {", "  return error(...)", "}", "if info.RevealValue == \"\" {", "  return error(...)", "}", "if info.OpaqueDocument == \"\" && len(info.Patches) == 0 {", "  return error(...)", "}", "if info.OpaqueDocument != \"\" && len(info.Patches) > 0 {", "  return error(...)", "}", "if err := validateSigner(info.Signer); err != nil {", "  return err", "}", "return validateRecoveryKey(info.RecoveryKey)"]
+
+/-- pkg/versions/1_0/client/recover.go:validateRecoveryKey -/
+def skel_recover_validateRecoveryKey : List String :=
+  ["if key == nil {", "  return error(...)", "}", "return key.Validate()"]
+
+/-- pkg/versions/1_0/client/recover.go:validateCommitment -/
+def skel_recover_validateCommitment : List String :=
+  ["currentCommitment, err := commitment.GetCommitment(jwk, multihashCode)", "if err != nil {", "  return error(...)", "}", "if currentCommitment == nextCommitment {", "  return error(...)", "}", "return nil"]
+
+/-- pkg/versions/1_0/client/deactivate.go:NewDeactivateRequest -/
+def skel_deactivate_NewDeactivateRequest : List String :=
+  ["if err := validateDeactivateRequest(info); err != nil {", "  return nil, err", "}", "signedDataModel := model.DeactivateSignedDataModel{...}", "signModel, err := signutil.SignModel(signedDataModel, info.Signer)", "if err != nil {", "  return nil, err", "}", "schema := &model.DeactivateRequest{...}", "return canonicalizer.MarshalCanonical(schema)"]
+
+/-- pkg/versions/1_0/client/deactivate.go:validateDeactivateRequest -/
+def skel_deactivate_validateDeactivateRequest : List String :=
+  ["if info.DidSuffix == \"\" {", "  return error(...)", "}", "if info.RevealValue == \"\" {", "  return error(...)", "}", "return validateSigner(info.Signer)"]
+
+/-- pkg/versions/1_0/client/deactivate.go:validateSigner -/
+def skel_deactivate_validateSigner : List String :=
+  ["if signer == nil {", "  return error(...)", "}", "if signer.Headers() == nil {", "  return error(...)", "}", "alg, ok := signer.Headers().Algorithm()", "if !ok {", "  return error(...)", "}", "if alg == \"\" {", "  return error(...)", "}", "allowedHeaders := map[string]bool{...}", "for h := range signer.Headers() {", "  if _, ok := allowedHeaders[h]; !ok {", "    return error(...)", "  }", "}", "return nil"]
+
+/-- pkg/vdr/sidetreelongform/sidetree/client.go:buildCreateRequest -/
+def skel_client_buildCreateRequest : List String :=
+  ["didDoc := &doc.Doc{...}", "docBytes, err := didDoc.JSONBytes()", "if err != nil {", "  return nil, error(...)", "}", "recoveryKey, err := pubkey.GetPublicKeyJWK(createDIDOpts.RecoveryPublicKey)", "if err != nil {", "  return nil, error(...)", "}", "updateKey, err := pubkey.GetPublicKeyJWK(createDIDOpts.UpdatePublicKey)", "if err != nil {", "  return nil, error(...)", "}", "recoveryCommitment, err := commitment.GetCommitment(recoveryKey, multiHashAlgorithm)", "if err != nil {", "  return nil, err", "}", "updateCommitment, err := commitment.GetCommitment(updateKey, multiHashAlgorithm)", "if err != nil {", "  return nil, err", "}", "createRequestInfo := &client.CreateRequestInfo{...}", "if createDIDOpts.AnchorOrigin != \"\" {", "  createRequestInfo.AnchorOrigin = createDIDOpts.AnchorOrigin", "}", "req, err := client.NewCreateRequest(createRequestInfo)", "if err != nil {", "  return nil, error(...)", "}", "return req, nil"]
+
+/-- pkg/vdr/sidetreelongform/sidetree/client.go:buildUpdateRequest -/
+def skel_client_buildUpdateRequest : List String :=
+  ["nextUpdateKey, err := pubkey.GetPublicKeyJWK(updateDIDOpts.NextUpdatePublicKey)", "if err != nil {", "  return nil, error(...)", "}", "nextUpdateCommitment, err := commitment.GetCommitment(nextUpdateKey, multiHashAlgorithm)", "if err != nil {", "  return nil, err", "}", "patches, err := createUpdatePatches(updateDIDOpts)", "if err != nil {", "  return nil, err", "}", "didSuffix, err := getUniqueSuffix(did)", "if err != nil {", "  return nil, err", "}", "multihashCode, err := hashing.GetMultihashCode(updateDIDOpts.OperationCommitment)", "if err != nil {", "  return nil, err", "}", "rv, err := commitment.GetRevealValue(updateDIDOpts.Signer.PublicKeyJWK(), uint(multihashCode))", "if err != nil {", "  return nil, err", "}", "return client.NewUpdateRequest(&client.UpdateRequestInfo{ DidSuffix: didSuffix, RevealValue: rv, UpdateCommitment: nextUpdateCommitment, UpdateKey: updateDIDOpts.Signer.PublicKeyJWK(), Patches: patches, MultihashCode: multiHashAlgorithm, Signer: updateDIDOpts.Signer, })"]
+
+/-- pkg/vdr/sidetreelongform/sidetree/client.go:buildRecoverRequest -/
+def skel_client_buildRecoverRequest : List String :=
+  ["didDoc := &doc.Doc{...}", "docBytes, err := didDoc.JSONBytes()", "if err != nil {", "  return nil, error(...)", "}", "nextRecoveryCommitment, nextUpdateCommitment, err := getCommitment(multiHashAlgorithm, recoverDIDOpts)", "if err != nil {", "  return nil, err", "}", "didSuffix, err := getUniqueSuffix(did)", "if err != nil {", "  return nil, err", "}", "multihashCode, err := hashing.GetMultihashCode(recoverDIDOpts.OperationCommitment)", "if err != nil {", "  return nil, err", "}", "rv, err := commitment.GetRevealValue(recoverDIDOpts.Signer.PublicKeyJWK(), uint(multihashCode))", "if err != nil {", "  return nil, err", "}", "recoverRequestInfo := &client.RecoverRequestInfo{...}", "if recoverDIDOpts.AnchorOrigin != \"\" {", "  recoverRequestInfo.AnchorOrigin = recoverDIDOpts.AnchorOrigin", "}", "req, err := client.NewRecoverRequest(recoverRequestInfo)", "if err != nil {", "  return nil, error(...)", "}", "return req, nil"]
+
+/-- pkg/vdr/sidetreelongform/sidetree/client.go:buildDeactivateRequest -/
+def skel_client_buildDeactivateRequest : List String :=
+  ["didSuffix, err := getUniqueSuffix(did)", "if err != nil {", "  return nil, err", "}", "multihashCode, err := hashing.GetMultihashCode(deactivateDIDOpts.OperationCommitment)", "if err != nil {", "  return nil, err", "}", "rv, err := commitment.GetRevealValue(deactivateDIDOpts.Signer.PublicKeyJWK(), uint(multihashCode))", "if err != nil {", "  return nil, err", "}", "return client.NewDeactivateRequest(&client.DeactivateRequestInfo{ DidSuffix: didSuffix, RevealValue: rv, RecoveryKey: deactivateDIDOpts.Signer.PublicKeyJWK(), Signer: deactivateDIDOpts.Signer, })"]
+
+/-- pkg/vdr/sidetreelongform/sidetree/client.go:createUpdatePatches -/
+def skel_client_createUpdatePatches : List String :=
+  ["var patches []patch.Patch", "if len(updateDIDOpts.RemoveAlsoKnownAs) != 0 {", "  p, err := createRemoveAlsoKnownAsPatch(updateDIDOpts)", "  if err != nil {", "    return nil, err", "  }", "  patches = append(patches, p)", "}", "if len(updateDIDOpts.RemovePublicKeys) != 0 {", "  p, err := createRemovePublicKeysPatch(updateDIDOpts)", "  if err != nil {", "    return nil, err", "  }", "  patches = append(patches, p)", "}", "if len(updateDIDOpts.RemoveServices) != 0 {", "  p, err := createRemoveServicesPatch(updateDIDOpts)", "  if err != nil {", "    return nil, err", "  }", "  patches = append(patches, p)", "}", "if len(updateDIDOpts.AddAlsoKnownAs) != 0 {", "  p, err := createAddAlsoKnownAsPatch(updateDIDOpts)", "  if err != nil {", "    return nil, err", "  }", "  patches = append(patches, p)", "}", "if len(updateDIDOpts.AddServices) != 0 {", "  p, err := createAddServicesPatch(updateDIDOpts)", "  if err != nil {", "    return nil, err", "  }", "  patches = append(patches, p)", "}", "if len(updateDIDOpts.AddPublicKeys) != 0 {", "  p, err := createAddPublicKeysPatch(updateDIDOpts)", "  if err != nil {", "    return nil, err", "  }", "  patches = append(patches, p)", "}", "return patches, nil"]
+
+/-- pkg/vdr/sidetreelongform/sidetree/client.go:getUniqueSuffix -/
+def skel_client_getUniqueSuffix : List String :=
+  ["p := strings.LastIndex(id, \":\")", "if p == -1 {", "  return \"\", error(...)", "}", "return id[p+1:], nil"]
+
+/-- pkg/vdr/sidetreelongform/sidetree/client.go:getCommitment -/
+def skel_client_getCommitment : List String :=
+  ["nextRecoveryKey, err := pubkey.GetPublicKeyJWK(recoverDIDOpts.NextRecoveryPublicKey)", "if err != nil {", "  return \"\", \"\", error(...)", "}", "nextUpdateKey, err := pubkey.GetPublicKeyJWK(recoverDIDOpts.NextUpdatePublicKey)", "if err != nil {", "  return \"\", \"\", error(...)", "}", "nextRecoveryCommitment, err = commitment.GetCommitment(nextRecoveryKey, multiHashAlgorithm)", "if err != nil {", "  return \"\", \"\", err", "}", "nextUpdateCommitment, err = commitment.GetCommitment(nextUpdateKey, multiHashAlgorithm)", "if err != nil {", "  return \"\", \"\", err", "}", "return nextRecoveryCommitment, nextUpdateCommitment, nil"]
+
+/-- pkg/vdr/sidetreelongform/sidetree/client.go:createRemovePublicKeysPatch -/
+def skel_client_createRemovePublicKeysPatch : List String :=
+  ["removePubKeys, err := json.Marshal(updateDIDOpts.RemovePublicKeys)", "if err != nil {", "  return nil, err", "}", "return patch.NewRemovePublicKeysPatch(string(removePubKeys))"]
+
+/-- pkg/vdr/sidetreelongform/sidetree/client.go:createRemoveServicesPatch -/
+def skel_client_createRemoveServicesPatch : List String :=
+  ["removeServices, err := json.Marshal(updateDIDOpts.RemoveServices)", "if err != nil {", "  return nil, err", "}", "return patch.NewRemoveServiceEndpointsPatch(string(removeServices))"]
+
+/-- pkg/vdr/sidetreelongform/sidetree/client.go:createRemoveAlsoKnownAsPatch -/
+def skel_client_createRemoveAlsoKnownAsPatch : List String :=
+  ["removeAlsoKnownAs, err := json.Marshal(updateDIDOpts.RemoveAlsoKnownAs)", "if err != nil {", "  return nil, err", "}", "return patch.NewRemoveAlsoKnownAs(string(removeAlsoKnownAs))"]
+
+/-- pkg/vdr/sidetreelongform/sidetree/client.go:createAddAlsoKnownAsPatch -/
+def skel_client_createAddAlsoKnownAsPatch : List String :=
+  ["rawAlsoKnownAs := doc.PopulateRawAlsoKnownAs(updateDIDOpts.AddAlsoKnownAs)", "addAlsoKnownAs, err := json.Marshal(rawAlsoKnownAs)", "if err != nil {", "  return nil, err", "}", "return patch.NewAddAlsoKnownAs(string(addAlsoKnownAs))"]
+
+/-- pkg/vdr/sidetreelongform/sidetree/client.go:createAddServicesPatch -/
+def skel_client_createAddServicesPatch : List String :=
+  ["rawServices, err := doc.PopulateRawServices(updateDIDOpts.AddServices)", "if err != nil {", "  return nil, err", "}", "addServices, err := json.Marshal(rawServices)", "if err != nil {", "  return nil, err", "}", "return patch.NewAddServiceEndpointsPatch(string(addServices))"]
+
+/-- pkg/vdr/sidetreelongform/sidetree/client.go:createAddPublicKeysPatch -/
+def skel_client_createAddPublicKeysPatch : List String :=
+  ["rawPublicKeys, err := doc.PopulateRawPublicKeys(updateDIDOpts.AddPublicKeys)", "if err != nil {", "  return nil, err", "}", "addPublicKeys, err := json.Marshal(rawPublicKeys)", "if err != nil {", "  return nil, err", "}", "return patch.NewAddPublicKeysPatch(string(addPublicKeys))"]
+
+/-- pkg/vdr/sidetreelongform/sidetree/client.go:validateCreateReq -/
+def skel_client_validateCreateReq : List String :=
+  ["if createDIDOpts.RecoveryPublicKey == nil {", "  return error(...)", "}", "if createDIDOpts.UpdatePublicKey == nil {", "  return error(...)", "}", "return nil"]
+
+/-- pkg/vdr/sidetreelongform/sidetree/client.go:validateUpdateReq -/
+def skel_client_validateUpdateReq : List String :=
+  ["if updateDIDOpts.Signer == nil {", "  return error(...)", "}", "if updateDIDOpts.NextUpdatePublicKey == nil {", "  return error(...)", "}", "if updateDIDOpts.OperationCommitment == \"\" {", "  return error(...)", "}", "return nil"]
+
+/-- pkg/vdr/sidetreelongform/sidetree/client.go:validateRecoverReq -/
+def skel_client_validateRecoverReq : List String :=
+  ["if recoverDIDOpts.NextRecoveryPublicKey == nil {", "  return error(...)", "}", "if recoverDIDOpts.NextUpdatePublicKey == nil {", "  return error(...)", "}", "if recoverDIDOpts.Signer == nil {", "  return error(...)", "}", "if recoverDIDOpts.OperationCommitment == \"\" {", "  return error(...)", "}", "return nil"]
+
+/-- pkg/vdr/sidetreelongform/sidetree/client.go:validateDeactivateReq -/
+def skel_client_validateDeactivateReq : List String :=
+  ["if deactivateDIDOpts.Signer == nil {", "  return error(...)", "}", "if deactivateDIDOpts.OperationCommitment == \"\" {", "  return error(...)", "}", "return nil"]
+
+/-- pkg/vdr/sidetreelongform/sidetree/doc/doc.go:JSONBytes -/
+def skel_doc_JSONBytes : List String :=
+  ["publicKeys, err := PopulateRawPublicKeys(doc.PublicKey)", "if err != nil {", "  return nil, error(...)", "}", "services, err := PopulateRawServices(doc.Service)", "if err != nil {", "  return nil, err", "}", "alsoKnownAs := PopulateRawAlsoKnownAs(doc.AlsoKnownAs)", "raw := &rawDoc{...}", "byteDoc, err := json.Marshal(raw)", "if err != nil {", "  return nil, error(...)", "}", "return byteDoc, nil"]
+
+/-- pkg/vdr/sidetreelongform/sidetree/doc/doc.go:PopulateRawPublicKeys -/
+def skel_doc_PopulateRawPublicKeys : List String :=
+  ["rawPKs := make([]map[string]interface{}, 0)", "for i := range pks {", "  publicKey, err := populateRawPublicKey(&pks[i])", "  if err != nil {", "    return nil, err", "  }", "  rawPKs = append(rawPKs, publicKey)", "}", "return rawPKs, nil"]
+
+/-- pkg/vdr/sidetreelongform/sidetree/doc/doc.go:populateRawPublicKey -/
+def skel_doc_populateRawPublicKey : List String :=
+  ["rawPK := make(map[string]interface{})", "rawPK[jsonldID] = pk.ID", "rawPK[jsonldType] = pk.Type", "rawPK[jsonldPurposes] = pk.Purposes", "jwkBytes, err := pk.JWK.MarshalJSON()", "switch  {", "case err == nil:", "  rawJWK := make(map[string]interface{})", "  if err := json.Unmarshal(jwkBytes, &rawJWK); err != nil {", "    return nil, err", "  }", "  rawPK[jsonldPublicKeyJwk] = rawJWK", "case pk.Type == JWK2020Type:", "  return nil, error(...)", "case pk.B58Key != \"\":", "  rawPK[jsonldPublicKeyBase58] = pk.B58Key", "default:", "  return nil, error(...)", "}", "return rawPK, nil"]
+
+/-- pkg/vdr/sidetreelongform/sidetree/doc/doc.go:PopulateRawServices -/
+def skel_doc_PopulateRawServices : List String :=
+  ["rawServices := make([]map[string]interface{}, 0)", "for i := range services {", "  rawService := make(map[string]interface{})", "  for k := range services[i].Properties {", "    rawService[k] = v", "  }", "  rawService[jsonldID] = services[i].ID", "  rawService[jsonldType] = services[i].Type", "  serviceEndpoint, err := services[i].ServiceEndpoint.MarshalJSON()", "  if err != nil {", "    return nil, err", "  }", "  if !bytes.Equal(serviceEndpoint, []byte(\"null\")) {", "    rawService[jsonldServicePoint] = json.RawMessage(serviceEndpoint)", "  }", "  if services[i].Priority != nil {", "    rawService[jsonldPriority] = services[i].Priority", "  }", "  if len(services[i].RecipientKeys) > 0 {", "    rawService[jsonldRecipientKeys] = services[i].RecipientKeys", "  }", "  if len(services[i].RoutingKeys) > 0 {", "    rawService[jsonldRoutingKeys] = services[i].RoutingKeys", "  }", "  if len(services[i].Accept) > 0 {", "    rawService[jsonldAccept] = services[i].Accept", "  }", "  rawServices = append(rawServices, rawService)", "}", "return rawServices, nil"]
+
+/-- pkg/vdr/sidetreelongform/sidetree/doc/doc.go:PopulateRawAlsoKnownAs -/
+def skel_doc_PopulateRawAlsoKnownAs : List String :=
+  ["values := make([]interface{}, len(alsoKnownAs))", "for i := range alsoKnownAs {", "  values[i] = v", "}", "return values"]
+
+/-- pkg/versions/1_0/client/create.go:NewCreateRequest -/
+def lit_NewCreateRequest_model_DeltaModel : List (List (String × String)) :=
+  [[("Patches", "patches"), ("UpdateCommitment", "info.UpdateCommitment")]]
+
+/-- pkg/versions/1_0/client/create.go:NewCreateRequest -/
+def lit_NewCreateRequest_model_SuffixDataModel : List (List (String × String)) :=
+  [[("AnchorOrigin", "info.AnchorOrigin"), ("DeltaHash", "deltaHash"), ("RecoveryCommitment", "info.RecoveryCommitment"), ("Type", "info.Type")]]
+
+/-- pkg/versions/1_0/client/create.go:NewCreateRequest -/
+def lit_NewCreateRequest_model_CreateRequest : List (List (String × String)) :=
+  [[("Delta", "delta"), ("Operation", "operation.TypeCreate"), ("SuffixData", "suffixData")]]
+
+/-- pkg/versions/1_0/client/update.go:NewUpdateRequest -/
+def lit_NewUpdateRequest_model_DeltaModel : List (List (String × String)) :=
+  [[("Patches", "info.Patches"), ("UpdateCommitment", "info.UpdateCommitment")]]
+
+/-- pkg/versions/1_0/client/update.go:NewUpdateRequest -/
+def lit_NewUpdateRequest_model_UpdateSignedDataModel : List (List (String × String)) :=
+  [[("AnchorFrom", "info.AnchorFrom"), ("AnchorUntil", "info.AnchorUntil"), ("DeltaHash", "deltaHash"), ("UpdateKey", "info.UpdateKey")]]
+
+/-- pkg/versions/1_0/client/update.go:NewUpdateRequest -/
+def lit_NewUpdateRequest_model_UpdateRequest : List (List (String × String)) :=
+  [[("Delta", "delta"), ("DidSuffix", "info.DidSuffix"), ("Operation", "operation.TypeUpdate"), ("RevealValue", "info.RevealValue"), ("SignedData", "signModel")]]
+
+/-- pkg/versions/1_0/client/recover.go:NewRecoverRequest -/
+def lit_NewRecoverRequest_model_DeltaModel : List (List (String × String)) :=
+  [[("Patches", "patches"), ("UpdateCommitment", "info.UpdateCommitment")]]
+
+/-- pkg/versions/1_0/client/recover.go:NewRecoverRequest -/
+def lit_NewRecoverRequest_model_RecoverSignedDataModel : List (List (String × String)) :=
+  [[("AnchorFrom", "info.AnchorFrom"), ("AnchorOrigin", "info.AnchorOrigin"), ("AnchorUntil", "info.AnchorUntil"), ("DeltaHash", "deltaHash"), ("RecoveryCommitment", "info.RecoveryCommitment"), ("RecoveryKey", "info.RecoveryKey")]]
+
+/-- pkg/versions/1_0/client/recover.go:NewRecoverRequest -/
+def lit_NewRecoverRequest_model_RecoverRequest : List (List (String × String)) :=
+  [[("Delta", "delta"), ("DidSuffix", "info.DidSuffix"), ("Operation", "operation.TypeRecover"), ("RevealValue", "info.RevealValue"), ("SignedData", "signModel")]]
+
+/-- pkg/versions/1_0/client/deactivate.go:NewDeactivateRequest -/
+def lit_NewDeactivateRequest_model_DeactivateSignedDataModel : List (List (String × String)) :=
+  [[("AnchorFrom", "info.AnchorFrom"), ("AnchorUntil", "info.AnchorUntil"), ("DidSuffix", "info.DidSuffix"), ("RecoveryKey", "info.RecoveryKey")]]
+
+/-- pkg/versions/1_0/client/deactivate.go:NewDeactivateRequest -/
+def lit_NewDeactivateRequest_model_DeactivateRequest : List (List (String × String)) :=
+  [[("DidSuffix", "info.DidSuffix"), ("Operation", "operation.TypeDeactivate"), ("RevealValue", "info.RevealValue"), ("SignedData", "signModel")]]
+
+/-- pkg/versions/1_0/model/util.go:GetAnchoredOperation -/
+def lit_GetAnchoredOperation_CreateRequest : List (List (String × String)) :=
+  [[("Delta", "op.Delta"), ("Operation", "op.Type"), ("SuffixData", "op.SuffixData")]]
+
+/-- pkg/versions/1_0/model/util.go:GetAnchoredOperation -/
+def lit_GetAnchoredOperation_UpdateRequest : List (List (String × String)) :=
+  [[("Delta", "op.Delta"), ("DidSuffix", "op.UniqueSuffix"), ("Operation", "op.Type"), ("RevealValue", "op.RevealValue"), ("SignedData", "op.SignedData")]]
+
+/-- pkg/versions/1_0/model/util.go:GetAnchoredOperation -/
+def lit_GetAnchoredOperation_DeactivateRequest : List (List (String × String)) :=
+  [[("DidSuffix", "op.UniqueSuffix"), ("Operation", "op.Type"), ("RevealValue", "op.RevealValue"), ("SignedData", "op.SignedData")]]
+
+/-- pkg/versions/1_0/model/util.go:GetAnchoredOperation -/
+def lit_GetAnchoredOperation_RecoverRequest : List (List (String × String)) :=
+  [[("Delta", "op.Delta"), ("DidSuffix", "op.UniqueSuffix"), ("Operation", "op.Type"), ("RevealValue", "op.RevealValue"), ("SignedData", "op.SignedData")]]
+
+/-- pkg/versions/1_0/model/util.go:GetAnchoredOperation -/
+def lit_GetAnchoredOperation_operation_AnchoredOperation : List (List (String × String)) :=
+  [[("AnchorOrigin", "op.AnchorOrigin"), ("OperationRequest", "operationBuffer"), ("Type", "op.Type"), ("UniqueSuffix", "op.UniqueSuffix")]]
+
+/-- pkg/vdr/sidetreelongform/sidetree/client.go:buildCreateRequest -/
+def lit_buildCreateRequest_client_CreateRequestInfo : List (List (String × String)) :=
+  [[("MultihashCode", "multiHashAlgorithm"), ("OpaqueDocument", "string(docBytes)"), ("RecoveryCommitment", "recoveryCommitment"), ("UpdateCommitment", "updateCommitment")]]
+
+/-- pkg/vdr/sidetreelongform/sidetree/client.go:buildCreateRequest -/
+def lit_buildCreateRequest_doc_Doc : List (List (String × String)) :=
+  [[("AlsoKnownAs", "createDIDOpts.AlsoKnownAs"), ("PublicKey", "createDIDOpts.PublicKeys"), ("Service", "createDIDOpts.Services")]]
+
+/-- pkg/vdr/sidetreelongform/sidetree/client.go:buildUpdateRequest -/
+def lit_buildUpdateRequest_client_UpdateRequestInfo : List (List (String × String)) :=
+  [[("DidSuffix", "didSuffix"), ("MultihashCode", "multiHashAlgorithm"), ("Patches", "patches"), ("RevealValue", "rv"), ("Signer", "updateDIDOpts.Signer"), ("UpdateCommitment", "nextUpdateCommitment"), ("UpdateKey", "updateDIDOpts.Signer.PublicKeyJWK()")]]
+
+/-- pkg/vdr/sidetreelongform/sidetree/client.go:buildRecoverRequest -/
+def lit_buildRecoverRequest_client_RecoverRequestInfo : List (List (String × String)) :=
+  [[("DidSuffix", "didSuffix"), ("MultihashCode", "multiHashAlgorithm"), ("OpaqueDocument", "string(docBytes)"), ("RecoveryCommitment", "nextRecoveryCommitment"), ("RecoveryKey", "recoverDIDOpts.Signer.PublicKeyJWK()"), ("RevealValue", "rv"), ("Signer", "recoverDIDOpts.Signer"), ("UpdateCommitment", "nextUpdateCommitment")]]
+
+/-- pkg/vdr/sidetreelongform/sidetree/client.go:buildRecoverRequest -/
+def lit_buildRecoverRequest_doc_Doc : List (List (String × String)) :=
+  [[("AlsoKnownAs", "recoverDIDOpts.AlsoKnownAs"), ("PublicKey", "recoverDIDOpts.PublicKeys"), ("Service", "recoverDIDOpts.Services")]]
+
+/-- pkg/vdr/sidetreelongform/sidetree/client.go:buildDeactivateRequest -/
+def lit_buildDeactivateRequest_client_DeactivateRequestInfo : List (List (String × String)) :=
+  [[("DidSuffix", "didSuffix"), ("RecoveryKey", "deactivateDIDOpts.Signer.PublicKeyJWK()"), ("RevealValue", "rv"), ("Signer", "deactivateDIDOpts.Signer")]]
+
+/-- pkg/vdr/sidetreelongform/sidetree/doc/doc.go:JSONBytes -/
+def lit_JSONBytes_rawDoc : List (List (String × String)) :=
+  [[("AlsoKnownAs", "alsoKnownAs"), ("PublicKey", "publicKeys"), ("Service", "services")]]
+
+/-- pkg/versions/1_0/model/request.go:CreateRequest -/
+def lit_tags_CreateRequest : List String :=
+  ["Operation operation.Type json:\"type,omitempty\"", "SuffixData *SuffixDataModel json:\"suffixData,omitempty\"", "Delta *DeltaModel json:\"delta,omitempty\""]
+
+/-- pkg/versions/1_0/model/request.go:SuffixDataModel -/
+def lit_tags_SuffixDataModel : List String :=
+  ["DeltaHash string json:\"deltaHash,omitempty\"", "RecoveryCommitment string json:\"recoveryCommitment,omitempty\"", "AnchorOrigin interface{} json:\"anchorOrigin,omitempty\"", "Type string json:\"type,omitempty\""]
+
+/-- pkg/versions/1_0/model/request.go:DeltaModel -/
+def lit_tags_DeltaModel : List String :=
+  ["UpdateCommitment string json:\"updateCommitment,omitempty\"", "Patches []patch.Patch json:\"patches,omitempty\""]
+
+/-- pkg/versions/1_0/model/request.go:UpdateRequest -/
+def lit_tags_UpdateRequest : List String :=
+  ["Operation operation.Type json:\"type\"", "DidSuffix string json:\"didSuffix\"", "RevealValue string json:\"revealValue\"", "SignedData string json:\"signedData\"", "Delta *DeltaModel json:\"delta\""]
+
+/-- pkg/versions/1_0/model/request.go:DeactivateRequest -/
+def lit_tags_DeactivateRequest : List String :=
+  ["Operation operation.Type json:\"type\"", "DidSuffix string json:\"didSuffix\"", "RevealValue string json:\"revealValue\"", "SignedData string json:\"signedData\""]
+
+/-- pkg/versions/1_0/model/request.go:RecoverRequest -/
+def lit_tags_RecoverRequest : List String :=
+  ["Operation operation.Type json:\"type\"", "DidSuffix string json:\"didSuffix\"", "RevealValue string json:\"revealValue\"", "SignedData string json:\"signedData\"", "Delta *DeltaModel json:\"delta\""]
+
+/-- pkg/versions/1_0/model/request.go:UpdateSignedDataModel -/
+def lit_tags_UpdateSignedDataModel : List String :=
+  ["UpdateKey *jws.JWK json:\"updateKey\"", "DeltaHash string json:\"deltaHash\"", "AnchorFrom int64 json:\"anchorFrom,omitempty\"", "AnchorUntil int64 json:\"anchorUntil,omitempty\""]
+
+/-- pkg/versions/1_0/model/request.go:RecoverSignedDataModel -/
+def lit_tags_RecoverSignedDataModel : List String :=
+  ["DeltaHash string json:\"deltaHash\"", "RecoveryKey *jws.JWK json:\"recoveryKey\"", "RecoveryCommitment string json:\"recoveryCommitment\"", "AnchorOrigin interface{} json:\"anchorOrigin,omitempty\"", "AnchorFrom int64 json:\"anchorFrom,omitempty\"", "AnchorUntil int64 json:\"anchorUntil,omitempty\""]
+
+/-- pkg/versions/1_0/model/request.go:DeactivateSignedDataModel -/
+def lit_tags_DeactivateSignedDataModel : List String :=
+  ["DidSuffix string json:\"didSuffix\"", "RevealValue string json:\"revealValue\"", "RecoveryKey *jws.JWK json:\"recoveryKey\"", "AnchorFrom int64 json:\"anchorFrom,omitempty\"", "AnchorUntil int64 json:\"anchorUntil,omitempty\""]
+
+/-- pkg/jws/jwk.go:JWK -/
+def lit_tags_JWK : List String :=
+  ["Kty string json:\"kty\"", "Crv string json:\"crv\"", "X string json:\"x\"", "Y string json:\"y\"", "N string json:\"n,omitempty\"", "E string json:\"e,omitempty\"", "Nonce string json:\"nonce,omitempty\""]
+
+/-- pkg/vdr/sidetreelongform/sidetree/doc/doc.go:rawDoc -/
+def lit_tags_rawDoc : List String :=
+  ["PublicKey []map[string]interface{} json:\"publicKey,omitempty\"", "Service []map[string]interface{} json:\"service,omitempty\"", "AlsoKnownAs []interface{} json:\"alsoKnownAs,omitempty\""]
+
 /-- pkg/versions/1_0/doctransformer/didtransformer/transformer.go:TransformDocument -/
 def skel_TransformDocument : List String :=
   ["docMetadata, err := metadata.New( metadata.WithIncludeUnpublishedOperations(t.includeUnpublishedOperations), metadata.WithIncludePublishedOperations(t.includePublishedOperations)). CreateDocumentMetadata(rm, info)", "if err != nil {", "  return nil, err", "}", "id, ok := info[document.IDProperty]", "if !ok {", "  return nil, error(...)", "}", "internal := document.DidDocumentFromJSONLDObject(rm.Doc.JSONLdObject())", "external := document.DidDocumentFromJSONLDObject(make(document.DIDDocument))", "ctx := []interface{}{...}", "for _ := range t.methodCtx {", "  ctx = append(ctx, c)", "}", "if t.includeBase {", "  ctx = append(ctx, getBase(id.(string)))", "}", "alsoKnownAs := internal.AlsoKnownAs()", "if len(alsoKnownAs) > 0 {", "  external[document.AlsoKnownAs] = alsoKnownAs", "}", "external[document.ContextProperty] = ctx", "external[document.IDProperty] = id", "result := &document.ResolutionResult{...}", "err = t.processKeys(internal, result)", "if err != nil {", "  return nil, error(...)", "}", "t.processServices(internal, result)", "return result, nil"]
